@@ -221,6 +221,7 @@ TrLatLabels ==
                                    SetOfSets(e.atoms[x]) = last'.res.atoms[P(x)])
                    /\ Clause("C10.str.objects", \A x \in 1..N : e.strobj[x] = e.objects[x])
                    /\ Clause("C10.str.properties", \A x \in 1..N : e.strprop[x] = e.properties[x])
+                   /\ Clause("C10.str.lattice", e.latstr)
                    /\ Clause("C10.extent.union", \A x \in 1..N :
                                    X[x] = UNION {ToSet(e.objects[y]) : y \in {y \in 1..N : X[y] \subseteq X[x]}})
                    /\ Clause("C10.intent.union", \A x \in 1..N :
@@ -284,7 +285,14 @@ TrGraphviz ==
                              {h[1] : h \in TL} = {x - 1 : x \in {x \in 1..N : L.plab[P(x)] # <<>>}})
                    /\ Clause("C20.proplabels.names", ok /\ \A h \in TL : h[2] = L.plab[P(h[1] + 1)] /\ h[3] = h[4])
                    /\ Clause("C20.noextra", e.extra = 0)
+                   /\ Clause("C20.undirected", e.undirected)
        ELSE OutOfDomain
+
+(* a public call raised on a valid input: the specification defines a result
+   for every call it models, so this is never a step of the specification   *)
+TrCrash == /\ IsEv("crash")
+           /\ Clause(e.prop \o ".raises." \o e.exc, FALSE)
+           /\ Skip
 
 TrDone == l = Len(Log) + 1 /\ l' = l + 1 /\ PrintT(<<"DONE", Len(Log)>>) /\ Skip
 
@@ -296,6 +304,6 @@ TraceNext ==
     \/ TrTraverse("upset", TRUE) \/ TrTraverse("upset_union", TRUE)
     \/ TrTraverse("downset", FALSE) \/ TrTraverse("downset_union", FALSE)
     \/ TrLatLabels \/ TrRelations \/ TrRelationsStr \/ TrAttributes \/ TrMinimal
-    \/ TrGraphviz \/ TrDone
+    \/ TrGraphviz \/ TrCrash \/ TrDone
 TraceSpec == TraceInit /\ [][TraceNext]_vars
 =============================================================================
